@@ -88,6 +88,28 @@ def verif_state():
 
 
 _built = False
+XS_BIN = os.path.join(HARNESS, "target-xs", "debug", "xs")
+_built_xs = False
+
+
+def build_xs_bin():
+    """the real `xs` binary (src/main.rs), built from /repo's working tree into a target directory of /verif"""
+    global _built_xs
+    if _built_xs:
+        return XS_BIN
+    t0 = time.time()
+    os.makedirs(CACHE, exist_ok=True)
+    with open(os.path.join(CACHE, "build-xs.lock"), "w") as lk:
+        fcntl.flock(lk, fcntl.LOCK_EX)
+        p = sh("cargo build --offline --manifest-path /repo/Cargo.toml --bin xs --target-dir "
+               + os.path.join(HARNESS, "target-xs") + " 2>&1", cwd=VERIF, timeout=3000, check=False,
+               env={"CARGO_PROFILE_DEV_DEBUG": "0", "CARGO_NET_OFFLINE": "true"})
+        if p.returncode != 0 or not os.path.exists(XS_BIN):
+            raise ToolError("xs binary build failed (does /repo still compile?)\n" + p.stdout[-6000:])
+    _built_xs = True
+    log(f"xs binary built in {time.time() - t0:.1f}s")
+    return XS_BIN
+
 
 
 def build_harness():
